@@ -52,8 +52,8 @@ META = {
 THEOREMS = [
     "unit_reciprocal", "unit_transitive", "unit_factor_symbolic", "unit_check_sound", "unit_txt_consistent",
     "dms_roundtrip", "dms_components_in_range", "dms_small_negative", "dms_unique", "dms_sign_of_value_refuted",
-    #LAG "lagrange_nodes", "lagrange_linear_in_y", "lagrange_perm_invariant", "lagrange_reproduces_poly", "lagrange_ndim",
-    #LAG "scaling_irrelevant",
+    "lagrange_nodes", "lagrange_linear_in_y", "lagrange_perm_invariant", "lagrange_reproduces_poly", "lagrange_ndim",
+    "scaling_irrelevant",
     "dop_pythagoras", "dop_pythagoras_geometry", "dop_perm_invariant", "dop_azimuth_invariant",
     "velocity_perp_position", "velocity_perp_pole", "velocity_perp_real",
 ]
@@ -122,23 +122,11 @@ def parse_unit_txt(path):
     return defs
 
 
-def _regen_if_changed(ctx, name, text):
-    """ctx.regen takes the build lock; skip it when the file on disk is already what would be written."""
-    header = f"(* GENERATED from {core.REPO} by harness/drivers/{ctx.prop.lower()}.py on every run - do not edit, not committed *)\n"
-    path = os.path.join(core.GEN, name + ".v")
-    try:
-        if open(path, encoding="utf8").read() == header + text:
-            return False
-    except OSError:
-        pass
-    return ctx.regen(name, text)
-
-
 def regen(ctx):
     defs = parse_unit_txt(os.path.join(core.REPO, "midgard", "math", "unit.txt"))
     body = ";\n".join(
         " " + emit.pair(emit.s(n), emit.q(c), emit.lst(emit.pair(emit.s(r), emit.zs(e)) for r, e in refs)) for n, c, refs in defs)
-    _regen_if_changed(ctx, "C20_UnitTxt",
+    ctx.regen("C20_UnitTxt",
               "From Coq Require Import ZArith QArith List String.\nImport ListNotations.\n"
               "Definition unit_txt : list (string * Q * list (string * Z)) := [\n" + body + "\n].\n")
     from midgard.collections import plate_motion_models as pmm
@@ -150,7 +138,7 @@ def regen(ctx):
             w = [Fraction(repr(float(getattr(pole, k)))) for k in ("wx", "wy", "wz")]
             rows.append(" " + emit.pair(emit.s(mname), emit.s(plate), emit.s(str(pole.unit)),
                                         emit.pair(*(emit.q(v) for v in w))))
-    _regen_if_changed(ctx, "C20_Plates",
+    ctx.regen("C20_Plates",
               "From Coq Require Import ZArith QArith List String.\nImport ListNotations.\n"
               "Definition plate_poles : list (string * string * string * (Q * Q * Q)) := [\n" + ";\n".join(rows) + "\n].\n")
     return defs
@@ -165,6 +153,24 @@ def fl(v):
     return float(v)
 
 
+def coq_cases_retry(ctx, shards):
+    """ctx.coq_cases; a shard whose coqc process was killed from outside (memory pressure of a shared machine:
+    coqc prints just 'Killed') is evaluated once more, alone.  Any other failure is kept as a failure."""
+    vs = ctx.coq_cases(shards, REQ)
+    errors = list(ctx.last_coq_errors)
+    for i, v in enumerate(vs):
+        if v is None:
+            err = next((o for p, o in errors if p.endswith(f"cases_{i:04d}.v")), "")
+            if err.strip() in ("Killed", "") or "Killed" in err[-200:]:
+                ctx.notes.append(f"shard {i} killed by the OS, evaluated again")
+                again = ctx.coq_cases([shards[i]], REQ)
+                vs[i] = again[0]
+                if again[0] is None:
+                    errors += ctx.last_coq_errors
+    ctx.last_coq_errors = [e for e in errors] if any(v is None for v in vs) else []
+    return vs
+
+
 class Cases:
     """cases of one check function: term + replay info; evaluated in shards."""
 
@@ -176,7 +182,8 @@ class Cases:
         self.meta.append(rep)
 
     def run(self, ctx):
-        vs = ctx.coq_cases(emit.shard_terms(self.fn, self.terms, self.size), REQ)
+        shards = emit.shard_terms(self.fn, self.terms, self.size)
+        vs = coq_cases_retry(ctx, shards)
         return emit.flatten_verdicts(vs, len(self.terms))
 
 
@@ -230,7 +237,7 @@ def units_cases(ctx, fact, mism):
                          dict(kind="unit_factor", a=a, b=b, observed=repr(v), how=f"Unit({a!r}, {b!r})  [alias of {ca}/{cb}]"))
                 ctx.case(("unit-alias", a, b), nontrivial=False)
         ctx.count("units:alias")
-    vs = ctx.coq_cases(shards, REQ)
+    vs = coq_cases_retry(ctx, shards)
     return vs, meta
 
 
@@ -692,6 +699,13 @@ def run(ctx):
 
     ctx.log(f"cases: factor={len(fact.terms)} dms={len(dms.terms)} lagrange={len(lag.terms)} laws={len(rows.terms) + len(lin.terms)} "
             f"dop={len(dop.terms)} plate={len(plate.terms)}")
+    # statistics only: how many degree-API decompositions are literally the model's (deg, min) cell
+    cell_terms = [t for t, m in zip(dms.terms, dms.meta) if m["api"] == 0]
+    if cell_terms:
+        cv = emit.flatten_verdicts(coq_cases_retry(ctx, emit.shard_terms("same_cell", cell_terms, 400)), len(cell_terms))
+        if cv is not None:
+            ctx.count("dms:deg:same-cell-as-model", sum(1 for v in cv if v == 0))
+            ctx.count("dms:deg:neighbouring-cell(rounding at a cell boundary)", sum(1 for v in cv if v != 0))
     for cs, name in ((fact, "units"), (dms, "dms"), (hms, "hms"), (plate, "plate"), (rows, "laws"), (lin, "laws-linear"), (dop, "dop"), (lag, "lagrange")):
         flat = cs.run(ctx)
         ctx.log(f"{name}: {len(cs.terms)} cases evaluated in Coq")
@@ -766,8 +780,16 @@ def replay(ctx, path):
             if rep["api"] == 0:
                 print("model to_dms:", ctx.coq_eval(REQ, f"match dy_toQ {emit.dy(x)} with Some q => Some (to_dms q) | None => None end"))
         elif kind == "lagrange":
-            res, err = lag_observe([float(v) for v in rep["x"]], rep["y"], [float(rep["x_new"])], **rep["options"])
+            xs = [float(v) for v in rep["x"]]
+            xn = [float(v) for v in rep.get("all_x_new", [rep["x_new"]])]
+            res, err = lag_observe(xs, rep["y"], xn, **rep["options"])
             print("now:", err if res is None else res.tolist())
+            yrows = np.asarray(rep["y"], dtype=float).reshape(len(xs), -1)
+            o = rep["options"]
+            pts = emit.lst(emit.pair(emit.q(Fraction(x)), emit.lst(emit.q(Fraction(float(v))) for v in row)) for x, row in zip(xs, yrows))
+            term = (f"match lagrange (mkOpt {emit.b(o.get('assume_sorted', False))} {emit.b(o.get('bounds_error', True))} None) {emit.nat(yrows.shape[1])} "
+                    f"{emit.nat(o['window'])} {pts} {emit.q(Fraction(float(rep['x_new'])))} with Some v => Some (List.map Qred v) | None => None end")
+            print("model (exact, None = ValueError):", ctx.coq_eval(REQ, term)[:2000])
         elif kind == "dop":
             print("now:", dop_observe([float(a) for a in rep["az"]], [float(e) for e in rep["el"]]))
             sats = emit.lst(emit.pair(emit.dy(float(a)), emit.dy(float(e))) for a, e in zip(rep["az"], rep["el"]))
